@@ -1,28 +1,27 @@
 SPECIFICATION Spec
 CONSTANTS
-  N = 1
-  Kinds = {"text", "raw", "command", "cfile", "ccmd", "datasource"}
-  Atoms = {"p", "b", "n", "L"}
-  MinLines = 0
-  MaxLines = 3
+  N = 2
+  Kinds = {"command"}
+  Atoms = {"p"}
+  MinLines = 1
+  MaxLines = 1
   MaxElems = 0
-  SaveAsSet = {"none", "file", "dir"}
-  Modes = {}
+  SaveAsSet = {"none"}
+  Modes = {"deleted", "unknown"}
   MayFail = FALSE
   OutcomeSet = {}
-  BackedSet = {FALSE}
+  BackedSet = {FALSE, TRUE}
   FilterSet = {FALSE}
   Budget = 2
   BudgetMode = "per-load"
   RecordMode = "component"
   PoolSet = {FALSE}
   AssembleMode = "index"
-  LateSet = {FALSE}
+  LateSet = {FALSE, TRUE}
   LookupMode = "live"
-  MaxFaults = 0
+  MaxFaults = 1
 INVARIANT RoundTrip
 INVARIANT ErrorsPersisted
 INVARIANT FaultIsolation
-INVARIANT JoinSplitLaw
 CONSTRAINT Emit
 CHECK_DEADLOCK FALSE
